@@ -150,41 +150,41 @@ type c11Rot struct {
 }
 
 type c11Query struct {
-	id      int
-	stats   bool
-	qid     uint64
-	started bool
-	phase   int // snapshots taken
-	done    bool
-	events  chan c11Event
-	resume  chan struct{}
-	snaps   [][]string // seg keys per hook call, in call order
-	snapRot []bool
-	extra   int
-	pre     map[int]bool // vids whose flush had completed at the first step
-	preN    int
-	vids    []int
-	count   int64
-	err     string
+	id           int
+	stats        bool
+	qid          uint64
+	started      bool
+	phase        int // snapshots taken
+	done         bool
+	events       chan c11Event
+	resume       chan struct{}
+	snaps        [][]string // seg keys per hook call, in call order
+	snapRot      []bool
+	extra        int
+	pre          map[int]bool // vids whose flush had completed at the first step
+	preN         int
+	vids         []int
+	count        int64
+	err          string
 	flushedAtEnd int
 }
 
 type c11World struct {
-	S        int
-	index    []string
-	segNames map[string]string   // real segkey → "i.k"
-	segOrder [][]string          // per stream: distinct segkeys in order of appearance
-	vidBlock map[int]string      // vid → "i.k#b"
-	nextVid  int
+	S           int
+	index       []string
+	segNames    map[string]string // real segkey → "i.k"
+	segOrder    [][]string        // per stream: distinct segkeys in order of appearance
+	vidBlock    map[int]string    // vid → "i.k#b"
+	nextVid     int
 	flushedVids []int
-	rots     []*c11Rot
-	rotByKey sync.Map // segkey → *c11Rot (for the pause hook)
-	queries  map[int]*c11Query
-	byQid    sync.Map
-	steps    []string
-	fails    []PropFail
-	nextQid  uint64
-	mu       sync.Mutex
+	rots        []*c11Rot
+	rotByKey    sync.Map // segkey → *c11Rot (for the pause hook)
+	queries     map[int]*c11Query
+	byQid       sync.Map
+	steps       []string
+	fails       []PropFail
+	nextQid     uint64
+	mu          sync.Mutex
 }
 
 func (w *c11World) segName(stream int, key string) string {
@@ -951,7 +951,8 @@ var c11Fixed = []string{
 	"c11w reader",
 	"c11 1 f0 q0r q0r q0r",
 	"c11 1 f0 r0 r0 r0 r0 q0r q0r q0r",
-	// the at-most-once counterexample of Props/C11.lean: first snapshot, the rotation publishes the segment, second snapshot
+	// the former at-most-once counterexample (Props/C11.lean, at_most_once_counterexample_old): first snapshot, the
+	// rotation publishes the segment, second snapshot — the segment is in both snapshots, requested once
 	"c11 1 f0 q0s r0 r0 q0s q0s",
 	"c11 1 f0 q0r r0 r0 q0r q0r",
 	// … and with the whole rotation between the two snapshots
